@@ -7,6 +7,7 @@ package main
 
 import (
 	"errors"
+	"fmt"
 	"io"
 	"log"
 	"os"
@@ -138,6 +139,17 @@ func main() {
 	out := vh.NewOut(os.Stdout)
 	defer out.Flush()
 	for si, sc := range in.Scripts {
+		runOne(out, si, sc)
+	}
+}
+
+func runOne(out *vh.Out, si int, sc Script) {
+	defer func() {
+		if p := recover(); p != nil {
+			out.Emit(map[string]interface{}{"ev": "call", "op": "panic", "dt": 0, "base": []BCall{}, "nev": 0, "err": true, "msg": fmt.Sprint(p)})
+		}
+	}()
+	{
 		cfg := sc.Cfg
 		cam := vh.Cam{X: 4, Y: 4, F: cfg.Fps}
 		minLenS := cfg.MinLenS
@@ -182,7 +194,7 @@ func main() {
 					mp.Reset(cam)
 				}
 			}
-			continue
+			return
 		}
 		f := cptvframe.NewFrame(cam)
 		bg := cptvframe.NewFrame(cam)
